@@ -167,7 +167,11 @@ pub fn scenario_set(tier: Tier, with_loads: bool) -> Vec<Scenario> {
                                         if !late.is_empty() && !matches!(load[0], Load::None) {
                                             continue;
                                         }
-                                        v.push(Scenario { addrs: addrs.clone(), hsa, gap, baud, slot_bits, ttr: None, divs: divs.clone(), phases: phases.clone(), loads: load.clone(), late, responders: vec![(40, 0)] });
+                                        // target rotation time: builder default (HSA*5000 bit) and the builder minimum
+                                        let ttrs: Vec<Option<u32>> = if late.is_empty() && gap == 1 && (baud == 1 || tier == Tier::Thorough) { vec![None, Some(256)] } else { vec![None] };
+                                        for ttr in ttrs {
+                                            v.push(Scenario { addrs: addrs.clone(), hsa, gap, baud, slot_bits, ttr, divs: divs.clone(), phases: phases.clone(), loads: load.clone(), late: late.clone(), responders: vec![(40, 0)] });
+                                        }
                                     }
                                 }
                             }
@@ -229,10 +233,10 @@ fn report(which: Which, sc: &Scenario, cfg: &W3Cfg, viols: &[(String, String)], 
     for (sig, detail) in viols {
         let mut c = cfg.clone();
         c.stalls = stalls.to_vec();
-        let sig = if which == Which::C01 && !sc.inside_envelope() && sig.starts_with("c01.r1") { format!("{sig}.outside_latency_envelope") } else { sig.clone() };
+        let sig = sig.clone();
         ctx().violation(
             sig,
-            format!("{detail} [stations {:?} HSA={} G={} baud={} slot={} divs={:?} phases={:?} loads={:?} late={:?} stalls={:?}]", sc.addrs, sc.hsa, sc.gap, BAUDS[sc.baud].1, sc.slot_bits, sc.divs, sc.phases, sc.loads, sc.late, stalls),
+            format!("{detail} [stations {:?} HSA={} G={} baud={} slot={} TTR={:?} divs={:?} phases={:?} loads={:?} late={:?} stalls={:?}]", sc.addrs, sc.hsa, sc.gap, BAUDS[sc.baud].1, sc.slot_bits, sc.ttr, sc.divs, sc.phases, sc.loads, sc.late, stalls),
             json!({"world": "w3", "cfg": c.to_json()}),
             (sc.addrs.len() * 10 + stalls.len() * 100 + sc.late.len() * 5) as u64 + sc.hsa as u64,
         );
@@ -494,6 +498,21 @@ pub fn las_closure(ev: &mut Evidence) {
         if n.ready_for_ring() {
             ctx().violation("c02.las.ready_after_one_rotation", format!("TS={ts}: ready after a single rotation of {r:?}"), json!({"kind":"las","ts":ts}), 1);
         }
+    }
+    // independent cross-check of the closure with stateright (BFS and DFS): unique state counts must agree
+    {
+        let mut sr_total = 0usize;
+        for ts in [0u8, 2, 5] {
+            let (b, d) = crate::xcheck::las_unique_states(ts);
+            if b != d {
+                machinery_failure(&format!("stateright BFS ({b}) and DFS ({d}) disagree on the LAS state count for TS={ts}"));
+            }
+            sr_total += b;
+        }
+        if sr_total as u64 != total_states {
+            machinery_failure(&format!("explorer cross-check failed: in-house closure has {total_states} LAS states, stateright {sr_total}"));
+        }
+        ev.extra.insert("stateright_cross_check".into(), json!({"las_unique_states": sr_total, "agrees": true}));
     }
     ctx().witness_n("las_states", total_states);
     ev.extra.insert("las_closure_states".into(), json!(total_states));
